@@ -242,6 +242,10 @@ func init() {
 		}
 		return nil
 	})
+	v("Settle", func(e *Engine, fr *frame, fn *ssa.Function, a []Value) Value {
+		e.settle()
+		return nil
+	})
 	v("Yield", func(e *Engine, fr *frame, fn *ssa.Function, a []Value) Value {
 		e.yield()
 		return nil
